@@ -77,21 +77,23 @@ def execute(c):
             R = np.array(c["R"], dtype="float64").reshape(2, 2) / 65
             W = np.array([[1, c["w2"] / 2], [0, 1]])
             Sm = np.diag([c["sx2"] / 2, c["sy2"] / 2])
-            A = R @ W @ Sm
+            g = 2.0 ** c.get("mag", 0)
+            A = (R @ W @ Sm) * g
             Ro, Wo, So = M.decompose_rws(A)
             res = M.resolution_from_affine(Affine(A[0, 0], A[0, 1], 10, A[1, 0], A[1, 1], -20))
             Ra, Wa, Sa = M.decompose_rws(Affine(A[0, 0], A[0, 1], 10, A[1, 0], A[1, 1], -20))
             if not (np.allclose([Ra.a, Ra.b, Ra.d, Ra.e], Ro.ravel()) and np.allclose([Sa.a, Sa.b, Sa.d, Sa.e], So.ravel())
                     and (Ra.c, Ra.f) == (10, -20)):
                 ev["outcome"] = "affine_and_ndarray_decompositions_differ"
-            ev["o"] = {"R": [_lat(v, 65) for v in Ro.ravel()], "W": [_lat(v, 2) for v in Wo.ravel()], "S": [_lat(v, 2) for v in So.ravel()],
-                       "res": [_lat(res.x, 2), _lat(res.y, 2)]}
+            ev["o"] = {"R": [_lat(v, 65) for v in Ro.ravel()], "W": [_lat(v, 2) for v in Wo.ravel()], "S": [_lat(v / g, 2) for v in So.ravel()],
+                       "res": [_lat(res.x / g, 2), _lat(res.y / g, 2)]}
         elif op == "affpts":
             A = Affine(*c["A"])
             X = [xy_(float(x), float(y)) for x, y in c["X"]]
-            Y = [xy_(*(A * p.xy)) for p in X]
+            g = 2.0 ** c.get("mag", 0)
+            Y = [xy_(*(g * v for v in A * p.xy)) for p in X]
             B = M.affine_from_pts(X, Y)
-            ev["o"] = {"A": [_lat(v) for v in B[:6]]}
+            ev["o"] = {"A": [_lat(v / g) for v in B[:6]]}
         elif op == "axis":
             xx = np.array([c["x0"] + (i + 0.5) * c["rx"] / 2 for i in range(c["nx"])])
             yy = np.array([c["y0"] + (j + 0.5) * c["ry"] / 2 for j in range(c["ny"])])
@@ -114,13 +116,14 @@ def execute(c):
             pts = fg if isinstance(fg, list) else [(k % fg[0], k // fg[0]) for k in range(fg[0] * fg[1])]
             ccx, ccy = CC[c["kind"]]
             aa = np.array(pts, dtype="float64")
-            bb = np.array([[_poly(ccx, x, y), _poly(ccy, x, y)] for x, y in pts], dtype="float64")
+            g = 2.0 ** c.get("mag", 0)
+            bb = np.array([[_poly(ccx, x, y), _poly(ccy, x, y)] for x, y in pts], dtype="float64") * g
             P = M.Poly2d.fit(aa, bb)
             T = Affine(*c["T"])
             PT = P.with_input_transform(T)
             pr = np.array(PROBES, dtype="float64")
-            d1 = P(pr)
-            d2 = np.array([PT(np.float64(x), np.float64(y)) for x, y in PROBES])
+            d1 = P(pr) / g
+            d2 = np.array([PT(np.float64(x), np.float64(y)) for x, y in PROBES]) / g
             ev["o"] = {"direct": [[_lat(v, 1, 1e-5) for v in row] for row in d1], "chained": [[_lat(v, 1, 1e-5) for v in row] for row in d2]}
     except OffLattice as ex:
         ev["outcome"] = "result_off_the_exact_lattice"
